@@ -25,7 +25,7 @@ EXTENDS Integers, Sequences, FiniteSets, TLC, Json, IOUtils
 CONSTANT STRICT
 Trace == ndJsonDeserialize(IOEnv.VERIF_TRACE)
 MaxP == 4
-MaxG == 4000
+MaxG == 6000
 MaxL == 4
 
 VARIABLES l, cfgSem, nAds, pending, asyncH, syncH, semCnt, latest, reported, took, cur, inEv, dlist, expect, regFlight, rmFlight,
